@@ -29,6 +29,7 @@ HERE = os.path.dirname(os.path.abspath(__file__))
 if HERE not in sys.path:
     sys.path.insert(0, HERE)
 import util_tie as U      # noqa: E402  (containers leg: coq/Util models vs lib/util/src)
+import cmp_census as CC   # noqa: E402  (census of the comparators handed to rbtree_init / qsort)
 LEVEL = "proof"
 
 COMPRESSORS = ["gzip", "xz", "lzma", "lz4", "zstd"]
@@ -894,10 +895,14 @@ def run(ctx):
         "props/C19/gen_util_constants.c -> coq/Util/GenUtil.v",
         "coq/Util models are hand transcriptions of the four container files, tied by answers and structural dumps of "
         "operation sequences; allocation failure is not modelled",
+        "props/C19/cmp_census.py (textual search for calls of rbtree_init / qsort / array_sort_range / bsearch outside test directories; "
+        "a comparator reached through a function pointer variable is reported as unresolved), props/C19/census/hc_*.c (one probe per "
+        "comparator, #includes the .c file that defines it), props/C19/driver_cmp.ml",
     ]
     ctx.assumptions += [
-        "containers: the key comparator is a strict weak order (rbtree theorems; checked on sampled keys for the directory "
-        "reader's comparator); fewer than 2^30 entries in a hash table (32 bit address arithmetic of the last row of hash_sizes[] "
+        "containers: the key comparator is a strict weak order (rbtree theorems; proved for the models of dcache_key_compare, "
+        "compare_inum, block_compare, compare_u64 - tied by sign on generated key sets - and checked on adversarial keys for every "
+        "comparator the census finds handed to rbtree_init / qsort in the working tree); fewer than 2^30 entries in a hash table (32 bit address arithmetic of the last row of hash_sizes[] "
         "can wrap: hash_table_last_row_wraps); hashes are 32 bit values",
         "operations between copy and release are 'local' (touch only the object's own cells and fresh ones, keep it "
         "well-formed, are functions of its abstract value): hypothesis of interleaving_independent, exhibited for one "
@@ -916,6 +921,9 @@ def run(ctx):
     # lib/util is reported here with a concrete container-level input before the object-level legs meet its consequences
     ustats = U.run_leg(ctx, info)
     ctx.log("container models vs lib/util done: %r" % (ustats,))
+    # the hypothesis of the rbtree theorems, for every comparator of the working tree (call sites found at run time)
+    cstats = CC.run_leg(ctx, info)
+    ctx.log("comparator census done: %r" % ({k: v for k, v in cstats.items() if k != "sites"},))
 
     comps = COMPRESSORS if ctx.tier == "thorough" else [COMPRESSORS[(ctx.seed + i) % 5] for i in range(3)]
     if ctx.tier == "thorough":
@@ -958,6 +966,7 @@ def run(ctx):
                                         layer2_graphs_compared=stats["l2"], layer1_traces_compared=stats["l1"],
                                         crashed=len([1 for v in results.values() if v[1]]),
                                         pool_allocator_cases=(pool_stats or {}).get("cases", 0))
+    ctx.coverage["distribution"]["comparator_census"] = cstats
     ctx.coverage["distribution"]["container_model_cases"] = ustats["by_kind"]
     ctx.coverage["distribution"]["container_model_answers_compared"] = ustats["answers"]
     ctx.coverage["distribution"]["container_model_dumps_compared"] = ustats["dumps"]
@@ -1030,6 +1039,11 @@ def replay(ctx, rp, info, exe, drv):
         ctx.coverage["evaluations"] = st.get("cases", 0)
         ctx.coverage["rule"] = "replay of " + ctx.replay
         return
+    if rp.get("kind") == "cmpcensus":
+        st = CC.run_leg(ctx, info, cases=[rp] if rp.get("tokens") else None)
+        ctx.coverage["evaluations"] = st.get("cases", 0)
+        ctx.coverage["rule"] = "replay of " + ctx.replay
+        return
     if rp.get("kind") == "util":
         ctx.seed = int(rp.get("seed", ctx.seed))
         run_util(ctx, info, [])
@@ -1082,3 +1096,4 @@ def replay(ctx, rp, info, exe, drv):
 def setup():
     core.build_model_driver("C19", "ExtractC19.v", os.path.join(HERE, "driver.ml"))
     core.build_model_driver("C19util", "ExtractC19Util.v", os.path.join(HERE, "driver_util.ml"))
+    CC.build_driver()
